@@ -49,7 +49,11 @@ Multi == <<
   "(def job (future (+ 40 2))) (def w @job) job (trace! (list w @job)) [job] (trace! @job)",
   \* strings holding line breaks (LF, CR LF), blanks before a line break, a line that looks like a preamble line
   "(def ml \"a  \r\\nb\\n c\") (trace! ml) (trace! (count ml)) (trace! (split ml \"\\n\"))",
-  "(trace! \"x \\n;; $A 1\\n\\n;; $B\r\\n\") (trace! (count \"\r\\n\"))" >>
+  "(trace! \"x \\n;; $A 1\\n\\n;; $B\r\\n\") (trace! (count \"\r\\n\"))",
+  \* symbols, keywords and quoted forms compared with = (the reader gives every token its own position)
+  "(trace! (= 'abc 'abc)) (trace! (= (symbol \"x\") 'x)) (def op (fn [f] (if (= (first f) 'sum) :sum :other))) (trace! (op '(sum 1 2))) (trace! (= '(a [b]) '(a [b])))",
+  \* statements that are not lists: a vector / map literal with an effect, a bare symbol, between other statements
+  "(def hits (atom 0)) [(swap! hits inc)] {:k (swap! hits inc)} hits (trace! @hits) 7 (trace! (swap! hits inc))" >>
 
 CtxForms == C01CtxForms
 G == C01G
